@@ -13,7 +13,7 @@ use std::rc::Rc;
 pub static ENGINE: Engine = Engine {
     prop: "C07",
     level: "exploration",
-    rule: "every Boolean function f over 4 ordered variables with gaps (65536, interned canonical diagrams) and every function over 3: m = model(f) is False iff f is unsatisfiable, else a single cube (every test has exactly one False child, chain ends in True) whose literals are variables f semantically depends on and whose assignments all satisfy f; infer(m, v) and infer(f, v) for every variable (incl. one outside) are (true,true) iff the diagram forces v; all of it also on diagrams that were never interned in the environment asked. Structured families k=5..8 exhaustively (all thresholds, parities, every cube and clause over <=5 variables). CLI: `rsbdd --evaluate=<f> -m -t` on every formula <= 3 (4) nodes of the CLI alphabet: exactly one True row for satisfiable formulas, none otherwise, and the row satisfies the reference. distinct = distinct (f, model) pairs + distinct CLI outputs",
+    rule: "every Boolean function f over 4 ordered variables with gaps (65536, interned canonical diagrams) and every function over 3: m = model(f) is False iff f is unsatisfiable, else a single cube (every test has exactly one False child, chain ends in True) whose literals are variables f semantically depends on and whose assignments all satisfy f; infer(m, v) and infer(f, v) for every variable (incl. one outside) are (true,true) iff the diagram forces v; all of it also on diagrams that were never interned in the environment asked. Structured families k=5..8 exhaustively (all thresholds, parities, every cube and clause over <=5 variables). CLI: `rsbdd --evaluate=<f> -m -t` on every formula <= 3 (4) nodes of the CLI alphabet: exactly one True row for satisfiable formulas, none otherwise, and the row satisfies the reference; with -c t|f in addition, the row satisfies the diagram after choices were dropped. distinct = distinct (f, model) pairs + distinct CLI outputs",
     assumptions: &["truth tables / cube shape read by independent walkers", "k <= 4 exhaustively; larger k only structured families"],
     max_shards: 64,
     run,
@@ -205,6 +205,59 @@ fn family(ctx: &mut Ctx, only: Option<&str>) {
     }
 }
 
+/// `-c t|f -m -t`: the model is taken of the diagram AFTER choices were dropped, so the one
+/// satisfying row must satisfy g = retain(f, c) (g computed through the library API)
+fn check_cli_retained(ctx: &mut Ctx, text: &str, c_true: bool) {
+    let case = json!({"part": "cli-c", "text": text, "c_true": c_true});
+    ctx.begin_case(|| case.clone());
+    ctx.count("evaluations", 1);
+    ctx.count("cli_runs", 1);
+    let Ok(a) = refl::parse(text) else { return };
+    let names = a.names();
+    if refl::Sem::new(&names).eval_closed(&a).is_none() {
+        return;
+    }
+    let crate::conv::ImplParse::Ok(p) = crate::conv::impl_parse(text) else { return };
+    let Ok(f) = crate::conv::impl_eval(&p) else { return };
+    let filter = if c_true { rsbdd::TruthTableEntry::True } else { rsbdd::TruthTableEntry::False };
+    let env = p.env.clone();
+    let Ok(g) = guarded(|| env.retain_choice_bottom_up(f, filter)) else { return };
+    let Ok(gt) = crate::conv::tt_named(&g, &names) else { return };
+    let cval = if c_true { "t" } else { "f" };
+    let r = Inv::new(text, &["-c", cval, "-m", "-t"]).run();
+    let key = format!("{TAG} rsbdd -c {cval} -m -t: {text}");
+    if !r.run.ok() {
+        ctx.violation(key, format!("rsbdd failed: {} {}", r.run.describe(), r.run.err_tail()), case);
+        return;
+    }
+    ctx.distinct(&(c_true, &r.run.stdout));
+    let t = match parse_table(&r.run.out()) {
+        Err(e) => {
+            ctx.violation(key, format!("unreadable table: {e}"), case);
+            return;
+        }
+        Ok(t) => t,
+    };
+    let true_rows: Vec<&Vec<Cell>> = t.rows.iter().filter(|(_, r)| *r).map(|(c, _)| c).collect();
+    if (gt != 0) != (true_rows.len() == 1) || (gt == 0 && !true_rows.is_empty()) {
+        ctx.violation(key, format!("{} satisfying rows printed; the diagram after dropping choices is {}", true_rows.len(), if gt == 0 { "unsatisfiable" } else { "satisfiable" }), case);
+        return;
+    }
+    if gt != 0 {
+        match project_ref(gt, &names, &t.header) {
+            Err(e) => ctx.violation(key, e, case),
+            Ok(refv) => {
+                for asg in crate::cli::row_assignments(true_rows[0]) {
+                    if !refv[asg] {
+                        ctx.violation(key, format!("the printed model row covers assignment {asg:#b} of {:?}, which does not satisfy the diagram the model was taken of", t.header), case);
+                        return;
+                    }
+                }
+            }
+        }
+    }
+}
+
 fn check_cli(ctx: &mut Ctx, text: &str) {
     let case = json!({"part": "cli", "text": text});
     ctx.begin_case(|| case.clone());
@@ -277,6 +330,10 @@ fn run(ctx: &mut Ctx) {
     for (i, (a, _, _)) in set.iter().enumerate() {
         if ctx.mine(i as u64) {
             check_cli(ctx, &refl::pp(a, refl::MINIMAL));
+            if a.size() <= 3 {
+                check_cli_retained(ctx, &refl::pp(a, refl::MINIMAL), true);
+                check_cli_retained(ctx, &refl::pp(a, refl::MINIMAL), false);
+            }
         }
     }
     crate::cli::cleanup_scratch();
@@ -284,6 +341,10 @@ fn run(ctx: &mut Ctx) {
 
 fn replay(ctx: &mut Ctx, c: &Value) {
     match c["part"].as_str() {
+        Some("cli-c") => {
+            check_cli_retained(ctx, c["text"].as_str().unwrap_or(""), c["c_true"].as_bool().unwrap_or(true));
+            crate::cli::cleanup_scratch();
+        }
         Some("cli") => {
             check_cli(ctx, c["text"].as_str().unwrap_or(""));
             crate::cli::cleanup_scratch();
